@@ -68,7 +68,12 @@ func (c *checkedS3) judge(kind, key string, rng *storage.ByteRange, from int, da
 	if err != nil {
 		// an error is never wrong data - but "the same bytes as the primary would return" also means that a
 		// replica that is missing the object or failing must not turn into a failed read while the primary
-		// (never faulted on reads in this world) holds the object
+		// holds the object. A failure injected into the primary's own read is the primary's answer.
+		var inj *sims3.InjectedError
+		if errors.As(err, &inj) && strings.HasPrefix(inj.Kind, "s3.") {
+			w.sim.Probe("c44.primary-read-failed")
+			return
+		}
 		if _, ok := w.s3.Peek(key); ok && !errors.Is(err, context.Canceled) && !errors.Is(err, context.DeadlineExceeded) {
 			w.sim.Probe("c44.read-error-judged")
 			w.sim.Fail("C44", "replica-failure-surfaced", "%s of %s failed with %v although the primary bucket holds the object and served no error", kind, key, err)
@@ -122,14 +127,24 @@ func (c *checkedS3) judge(kind, key string, rng *storage.ByteRange, from int, da
 func (c *checkedS3) DownloadSegment(ctx context.Context, key string, rng *storage.ByteRange) ([]byte, error) {
 	from := c.w.sim.Step()
 	b, err := c.S3Client.DownloadSegment(ctx, key, rng)
-	c.judge("DownloadSegment", key, rng, from, b, err)
+	jerr := err
+	if err != nil && ctx.Err() == nil && (errors.Is(err, context.Canceled) || errors.Is(err, context.DeadlineExceeded)) {
+		// "cancelled" / "deadline exceeded" although the caller's own context is alive: a deadline of the
+		// client's making, not the request's (the broker still gets the error as it is)
+		jerr = fmt.Errorf("%s (the caller's context is still alive)", err.Error())
+	}
+	c.judge("DownloadSegment", key, rng, from, b, jerr)
 	return b, err
 }
 
 func (c *checkedS3) DownloadIndex(ctx context.Context, key string) ([]byte, error) {
 	from := c.w.sim.Step()
 	b, err := c.S3Client.DownloadIndex(ctx, key)
-	c.judge("DownloadIndex", key, nil, from, b, err)
+	jerr := err
+	if err != nil && ctx.Err() == nil && (errors.Is(err, context.Canceled) || errors.Is(err, context.DeadlineExceeded)) {
+		jerr = fmt.Errorf("%s (the caller's context is still alive)", err.Error())
+	}
+	c.judge("DownloadIndex", key, nil, from, b, jerr)
 	return b, err
 }
 
@@ -179,5 +194,16 @@ func w1GenReplica(r *rand.Rand, c *simrt.Case, nclients, maxOps int) {
 		case 3:
 			c.Faults = append(c.Faults, simrt.Fault{Kind: "s3r.slow", Op: "s3r.get", Nth: r.IntN(6), Arg: int64(50+r.IntN(500)) * 1e6})
 		}
+	}
+	if r.IntN(4) == 0 {
+		// a replica that hangs for seconds and then fails: the read must still be served by the primary
+		c.Faults = append(c.Faults, simrt.Fault{Kind: "s3r.slow", Op: "s3r.get", Nth: r.IntN(4), Count: 1 + r.IntN(2), Arg: int64(2100+r.IntN(6000)) * 1e6},
+			simrt.Fault{Kind: "s3r.fail_before", Op: "s3r.get", Nth: r.IntN(6), Count: 1 + r.IntN(3)})
+	}
+	if r.IntN(4) == 0 {
+		// the replica lags (object missing there) at the moment a primary read fails: what comes back must be
+		// the primary's failure, not "there is no such object"
+		cfg["replica_lag_ms"] = 5000
+		c.Faults = append(c.Faults, simrt.Fault{Kind: "s3.fail_before", Op: pick(r, "s3.get.index", "s3.get.segment", "s3.get"), Nth: r.IntN(4), Count: 1 + r.IntN(2)})
 	}
 }
